@@ -24,7 +24,8 @@ def cps(s):
     return [ord(c) for c in s]
 
 
-EXT = ('dt', 'date', 'dec')       # leaf kinds beyond the model: exercised by T3 only (as arguments), dt also as out-header
+EXT = ('dec',)                    # leaf kinds outside the model: T3 only
+EXT_ALL = ('dt', 'date', 'dec')   # kinds drawn for the extended signatures (dt, date are modelled: shared leaf codec)       # leaf kinds beyond the model: exercised by T3 only (as arguments), dt also as out-header
 
 
 def native_leaf(v):
@@ -149,12 +150,13 @@ class Impl:
         if t['k'] != 'obj':
             # customised primitives are shared by all signatures of a run (spyne keeps every variant of a
             # type in per-class registries; thousands of throw-away variants make customize() slow)
-            pkey = (t['k'], f['many'], f.get('wrap'), f['min'], f['max'])
+            pkey = (t['k'], f['many'], f.get('wrap'), f['min'], f['max'], f.get('nillable', True))
+            nil = {} if f.get('nillable', True) else {'nillable': False}
             c = Impl._prims.get(pkey)
             if c is None:
                 base = self.P[t['k']]
                 if not f['many']:
-                    c = base(min_occurs=f['min']) if f['min'] else base
+                    c = base(min_occurs=f['min'], **nil) if (f['min'] or nil) else base
                 elif f.get('wrap') == 'array':
                     c = self.Array(base)
                 else:
@@ -292,12 +294,13 @@ def P(kind):
     return {'k': kind}
 
 
-def fld(name, t, many=False, wrap=None, mn=0, mx=1):
+def fld(name, t, many=False, wrap=None, mn=0, mx=1, nillable=True):
     if many and wrap is None:
         wrap = 'array'
     if many and wrap == 'array':
         mn, mx = 0, None
-    return {'n': cps(name), 'many': many, 'wrap': wrap, 'min': mn, 'max': (mx if many else 1), 't': t}
+    return {'n': cps(name), 'many': many, 'wrap': wrap, 'min': mn, 'max': (mx if many else 1), 't': t,
+            'nillable': nillable}
 
 
 def obj(cid, fields):
@@ -310,7 +313,8 @@ def model_fields(fields):
         return t if t['k'] != 'obj' else {'k': 'obj', 'cid': t['cid'], 'fields': [mf(f) for f in t['fields']]}
 
     def mf(f):
-        return {'n': f['n'], 'many': f['many'], 'min': f['min'], 'max': f['max'], 't': ty(f['t'])}
+        return {'n': f['n'], 'many': f['many'], 'min': f['min'], 'max': f['max'], 'nillable': f.get('nillable', True),
+                't': ty(f['t'])}
     return [mf(f) for f in fields]
 
 
@@ -375,7 +379,7 @@ class Gen:
                 mx = rng.choice([None, None, 2, 3, 20]) if wrap == 'occurs' else None
                 out.append(fld(nm, t, many, wrap, 0, mx))
             else:
-                kind = rng.choice(EXT) if (self.ext and rng.random() < 0.4) else rng.choice(PRIMS)
+                kind = rng.choice(EXT_ALL) if (self.ext and rng.random() < 0.4) else rng.choice(PRIMS)
                 many = rng.random() < 0.3
                 wrap = rng.choice(['array', 'occurs']) if many else None
                 mx = rng.choice([None, 2, 5, 20]) if wrap == 'occurs' else None
@@ -547,7 +551,7 @@ def render_qs(rng, pairs, style):
             # separates name and value)
             return _quote(s, safe="[]:/?@!$'()*,." if key else "=:/?@!$'()*,.")
         return _quote(s, safe='')
-    parts = ['%s=%s' % (q(k, True), q(v, False)) for k, v in pairs]
+    parts = [q(k, True) if v is None else '%s=%s' % (q(k, True), q(v, False)) for k, v in pairs]
     if style == 1:
         out = ''
         for i, p in enumerate(parts):
@@ -601,7 +605,11 @@ def measure_facts():
         f['keyOrder'] = 'lexicographic'
     else:
         f['keyOrder'] = 'other'
-    f['intMaxStrLen'] = int(Integer.Attributes.max_str_len)
+    # an object spelled key=empty is validated (mandatory member missing -> rejected)
+    mand = obj(3, [fld('x', P('int'), False, None, 1, 1, nillable=False), fld('y', P('str'))])
+    r, _, _ = Impl([fld('o', mand)], dict(cfg0, soft=True)).get('o=empty')
+    r2, _, _ = Impl([fld('p', mand, True)], dict(cfg0, soft=True, strict=True)).get('p[1].x=5')
+    f['freqTouch'] = 'fault' in r and 'fault' in r2
     r, _, _ = Impl(sigo, cfg0).get('p=empty')
     f['emptyMarker'] = 'empty' if r.get('ok', {}).get('o', [[0, 0]])[0][1] == {'l': []} else 'other'
     seps = [c for c in '&;,| ' if list(_parse_qs('a=1%sb=2' % c).keys()) == ['a', 'b']]
@@ -623,10 +631,15 @@ def measure_facts():
 
 
 GOOD = {'keyOrder': 'natural', 'tagScope': 'perBranch', 'freqScope': 'perMember'}
+GOOD_C05 = {'freqTouch': True}      # soft-validation switches: reported by part_c05 (property C05), modelled either way
 
 
 def fact_witness(k):
     inner = obj(1, [fld('x', P('int')), fld('y', P('str'))])
+    if k == 'freqTouch':
+        mand = obj(3, [fld('x', P('int'), False, None, 1, 1, nillable=False), fld('y', P('str'))])
+        return {'op': 'verdict', 'fields': [fld('o', mand)], 'cfg': {'strict': False, 'soft': True, 'delim': cps('.')},
+                'qs': 'o=empty', 'expected': 'fault'}
     if k == 'keyOrder':
         sig = [fld('p', obj(2, [fld('i', P('int'))]), True)]
         val = {'o': [[cps('p'), {'l': [{'o': [[cps('i'), {'i': str(i)}]]} for i in range(12)]}]]}
@@ -644,6 +657,7 @@ def facts_lean(f):
     ch = lambda c: "Char.ofNat %d" % ord(c)
     return '''-- GENERATED by harness/c03.py (T1) from /repo on every run. Do not edit.
 import SpyneModel.Flat
+import SpyneModel.Generated.Facts08
 namespace SpyneModel.Generated
 open SpyneModel SpyneModel.Flat
 
@@ -651,7 +665,8 @@ def facts03 : Facts03 where
   keyOrder := .%s
   tagScope := .%s
   freqScope := .%s
-  intMaxStrLen := %d
+  leaf := facts08
+  freqTouch := %s
   emptyMarker := %s
   pairSeps := [%s]
   plusIsSpace := %s
@@ -659,7 +674,7 @@ def facts03 : Facts03 where
   intEmptyIsNone := %s
 
 end SpyneModel.Generated
-''' % (f['keyOrder'], f['tagScope'], f['freqScope'], f['intMaxStrLen'],
+''' % (f['keyOrder'], f['tagScope'], f['freqScope'], b(f['freqTouch']),
        '"%s".toList' % f['emptyMarker'], ', '.join(ch(c) for c in f['pairSeps']),
        b(f['plusIsSpace']), b(f['boolFormWords']), b(f['intEmptyIsNone']))
 
@@ -708,6 +723,8 @@ def feature_of(fields, val_pairs, cfg):
 def run(ctx):
     rng = ctx.rng
     # ---- T1
+    from . import c08
+    c08.refresh_facts(ctx)      # leaf switches -> Generated/Facts08.lean (Facts03 embeds them)
     f = measure_facts()
     ctx.facts = f
     ctx.write_generated('Facts03.lean', facts_lean(f))
@@ -715,7 +732,12 @@ def run(ctx):
         if f[k] != good:
             ctx.hit('fact-bad:' + k)
             w = fact_witness(k)
-            r = check_documented(ctx, w['fields'], w['cfg'], w['qs'], w['expected'], report=False)
+            if k == 'freqTouch':
+                r0, _, _ = Impl(w['fields'], w['cfg']).get(w['qs'])
+                r = None if 'fault' in r0 else 'soft validation lets %r through although member x is mandatory: %s' % (
+                    w['qs'], core.canon(r0)[:200])
+            else:
+                r = check_documented(ctx, w['fields'], w['cfg'], w['qs'], w['expected'], report=False)
             if r is not None:
                 ctx.finding('switch:%s=%s' % (k, f[k]), 'behaviour switch %s measured %r (good: %r): %s' % (k, f[k], good, r),
                             dict(w, fact=k, measured=f[k]))
@@ -785,7 +807,7 @@ def model_parallel(ctx, queries, chunk=400):
     from concurrent.futures import ThreadPoolExecutor
     chunks = [queries[i:i + chunk] for i in range(0, len(queries), chunk)]
     with ThreadPoolExecutor(max_workers=max(2, min(8, (os.cpu_count() or 4) // 2))) as ex:
-        res = list(ex.map(ctx.model, chunks))
+        res = list(ex.map(lambda ch: ctx.model(ch, driver='C03'), chunks))
     return [a for r in res for a in r]
 
 
@@ -943,8 +965,6 @@ def conforms(fields, val):
             if len(v['l']) < f['min']:
                 return False
         if t['k'] == 'obj':
-            if v.get('marker'):
-                continue          # an object spelled `=empty` is not checked by the frequency table
             for e in (v['l'] if f['many'] else [v]):
                 if not conforms(t['fields'], e):
                     return False
@@ -1121,7 +1141,8 @@ def t2_returns(ctx, g, add):
         r, st, body = impl.get('a=1')
         impl.retval, impl.out_header = None, None
         got_hdrs = [[cps(k), cps(v)] for k, v in st.get('headers', [])]
-        add({'op': 'http.return', 'mime': cps('text/plain'), 'hdrFields': model_fields(hf), 'hdr': hv, 'ret': ret_json},
+        add({'op': 'http.return', 'mime': cps('text/plain'), 'hdrFields': model_fields(hf), 'hdr': hv, 'ret': ret_json,
+             'retTy': P(kind)},
             {'headers': got_hdrs, 'body': list(body)})
         ctx.cov['traces_validated_against_impl'] += 1
         # T3: exact bytes, declared headers present with exact text, truthful Content-Length
@@ -1166,14 +1187,335 @@ def ascii_header(v):
     return True
 
 
+def _case_from(obj):
+    """rebuild a hierblock case (classes of the recorded universe) for a replay"""
+    from . import hierblock as H
+    c = H.FixedCase.__new__(H.FixedCase)
+
+    class _U:
+        classes = obj['reg']
+        by_name = {cd['name']: cd for cd in obj['reg']}
+
+        def registry(self):
+            return obj['reg']
+
+        def subclasses(self, n):
+            return []
+    c.U = _U()
+    c.B = H.Builder()
+    c.B.register(obj['reg'])
+    c.B.universe_fields = {cd['name']: cd['fields'] for cd in obj['reg']}
+    c.sig = obj['sig']
+    c.impl = H.Impl(c.B, c.sig)
+    c.in_ty = c.impl.in_ty()
+    return c
+
+
+# ===================================================================================== C05 (soft validation) over the shared vocabulary
+REPLAY_PREFIX = 'flat'
+
+
+def t1(ctx):
+    """T1 for checks that build on the flat model (Props/C05_flat.lean imports Generated/Facts03.lean)"""
+    f = measure_facts()
+    ctx.facts03 = f
+    ctx.write_generated('Facts03.lean', facts_lean(f))
+    return f
+
+
+def flat_ok(t, top=True):
+    """is the shared type expressible as a member of a flat (HttpRpc) signature of the model?"""
+    k = t['k']
+    if k == 'arr':
+        e = t['elem']
+        eo = e.get('occ') or {'nillable': True, 'min': 0, 'max': 1}
+        if e['k'] == 'arr' or (eo['max'] is None or eo['max'] > 1) or eo['min'] != 0:
+            return False
+        o = t.get('occ') or {'nillable': True, 'min': 0, 'max': 1}
+        if o['max'] != 1 or not (o['min'] == 0 or o['nillable']):
+            return False
+        return flat_ok(dict(e, occ={'nillable': eo['nillable'], 'min': 0, 'max': 1}), False)
+    if k == 'obj':
+        return all(flat_ok(ft, False) for _, ft in t['fields'])
+    return k in ('int', 'bool', 'str', 'date', 'time', 'dt', 'dur', 'bytes', 'enum')
+
+
+def flat_fields(fields):
+    """shared Ty JSON members -> flat model members (the Lean translation `ofFields`, restated)"""
+    out = []
+    for n, t in fields:
+        o = t.get('occ') or {'nillable': True, 'min': 0, 'max': 1}
+        if t['k'] == 'arr':
+            e = t['elem']
+            eo = e.get('occ') or {'nillable': True, 'min': 0, 'max': 1}
+            occ_ = {'many': True, 'min': eo['min'], 'max': None, 'nillable': eo['nillable']}
+            t = e
+        else:
+            occ_ = {'many': o['max'] is None or o['max'] > 1, 'min': o['min'], 'max': o['max'], 'nillable': o['nillable']}
+        if t['k'] == 'obj':
+            ty = {'k': 'obj', 'cid': 0, 'fields': flat_fields(t['fields'])}
+        else:
+            ty = {k: v for k, v in t.items() if k != 'occ'}
+            if ty['k'] == 'bytes' and ty.get('enc', 'base64') == 'base64':
+                ty['enc'] = 'urlsafe'       # a ByteArray without an encoding of its own is read with the protocol default
+        out.append(dict(occ_, n=cps(n), t=ty))
+    return out
+
+
+def shared_leaf_text(t, v):
+    from . import hierblock as H
+    import base64
+    k = t['k']
+    if 'i' in v:
+        return v['i']
+    if 'b' in v:
+        return 'true' if v['b'] else 'false'
+    if 's' in v:
+        return uncps(v['s'])
+    if 'date' in v:
+        return H.iso_date(v['date'])
+    if 'time' in v:
+        return H.iso_time(v['time'])
+    if 'dt' in v:
+        a = v['dt']
+        return H.iso_date(a[:3]) + 'T' + H.iso_time(a[3:7]) + ('' if a[7] is None else H.iso_offset(a[7]))
+    if 'dur' in v:
+        return H.iso_dur(int(v['dur']))
+    if 'x' in v:
+        b = bytes(v['x'])
+        enc = t.get('enc', 'base64')
+        return b.hex() if enc == 'hex' else base64.urlsafe_b64encode(b).decode('ascii')
+    if 'e' in v:
+        return uncps(v['e'])
+    raise ValueError(v)
+
+
+class Unspellable(Exception):
+    pass
+
+
+def spell_shared(fields, fvs, delim, prefix=''):
+    """documented flat notation of a shared value: (key, text | None) pairs. None members are left out, except a
+    mandatory nillable one, which is sent as the key without '='. Raises Unspellable for what the notation cannot say."""
+    pairs = []
+    for (n, t), (m, v) in zip(fields, fvs):
+        o = t.get('occ') or {'nillable': True, 'min': 0, 'max': 1}
+        key = prefix + n
+        rep = o['max'] is None or o['max'] > 1
+        if t['k'] == 'arr':
+            rep, et = True, t['elem']
+        else:
+            et = t
+        if v is None:
+            if not rep and o['min'] > 0 and o['nillable'] and t['k'] != 'obj' and t['k'] != 'arr':
+                pairs.append((key, None))
+            elif not rep and o['min'] > 0 and o['nillable'] and t['k'] == 'obj':
+                raise Unspellable('None for a mandatory nillable object member')    # no key says "this object is null"
+            continue
+        if rep:
+            items = v['l']
+            if et['k'] == 'obj':
+                if not items:
+                    pairs.append((key, 'empty'))
+                for i, x in enumerate(items):
+                    sub = [] if x is None else spell_shared(et['fields'], x['o'][1], delim, '%s[%d]%s' % (key, i, delim))
+                    if not sub:     # (a mandatory nillable member that is None is a key without '=': the element exists)
+                        raise Unspellable('null / member-less element of an object array')
+                    pairs += sub
+            else:
+                if not items:
+                    raise Unspellable('empty primitive array')
+                pairs += [(key, None if x is None else shared_leaf_text(et, x)) for x in items]
+        elif t['k'] == 'obj':
+            sub = spell_shared(t['fields'], v['o'][1], delim, key + delim)
+            pairs += sub if sub else [(key, 'empty')]
+        else:
+            pairs.append((key, shared_leaf_text(t, v)))
+    return pairs
+
+
+def val_to_node(v):
+    """shared Val JSON -> the model's object-graph JSON"""
+    if v is None:
+        return None
+    if 'o' in v:
+        return {'o': [[cps(n), val_to_node(x)] for n, x in v['o'][1]]}
+    if 'l' in v:
+        return {'l': [val_to_node(x) for x in v['l']]}
+    return v
+
+
+class FlatCase:
+    """a hierblock case (shared Ty/Val universe, real classes) served over HttpRpc"""
+
+    def __init__(self, c):
+        self.c = c
+        self.apps = {}
+
+    def app(self, strict):
+        w = self.apps.get(strict)
+        if w is None:
+            from spyne import Application
+            from spyne.protocol.http import HttpRpc
+            from spyne.server.wsgi import WsgiApplication
+            w = WsgiApplication(Application([self.c.impl.service], 'tns', out_protocol=HttpRpc(),
+                                            in_protocol=HttpRpc(validator='soft', strict_arrays=strict)))
+            self.apps[strict] = w
+        return w
+
+    def get(self, strict, qs):
+        """canonical outcome of a real WSGI GET: ok(args as shared Val) / fault / crash / leak"""
+        from . import hierblock as H
+        c = self.c
+        del c.impl.calls[:]
+        st = {}
+        env = {'QUERY_STRING': qs, 'PATH_INFO': '/f', 'REQUEST_METHOD': 'GET', 'SERVER_NAME': 'localhost',
+               'SERVER_PORT': '80', 'wsgi.url_scheme': 'http', 'SCRIPT_NAME': ''}
+        try:
+            body = b''.join(self.app(strict)(env, lambda s, h, e=None: st.update(status=s)))
+        except Exception as e:
+            return {'crash': type(e).__name__}
+        if st.get('status', '').startswith('200') and c.impl.calls:
+            args = c.impl.calls[-1]
+            try:
+                return {'ok': {'o': ['f', [[n, c.B.from_native(t, a)] for (n, t), a in zip(c.sig['args'], args)]]}}
+            except H.Leak as e:
+                return {'leak': str(e)}
+        if st.get('status', '').startswith('400') and body.startswith(b'Client.'):
+            return {'fault': 'Client.ValidationError'}
+        return {'crash': body[:60].decode('latin1')}
+
+
+def c05_flat_verdicts(ctx, fc, args, what, add):
+    from . import hierblock as H
+    c = fc.c
+    fields = c.sig['args']
+    expected = H.conforms_fields(fields, args['o'][1])
+    try:
+        pairs = spell_shared(fields, args['o'][1], '.')
+    except Unspellable as e:
+        ctx.hit('c05flat:unspellable:' + str(e))
+        return
+    mf = flat_fields(fields)
+    for strict in (False, True):
+        pp = permute_pairs(ctx.rng, pairs) if ctx.rng.random() < 0.5 else pairs
+        qs = render_qs(ctx.rng, pp, ctx.rng.choice([0, 0, 3, 4]))
+        r = fc.get(strict, qs)
+        kind = next(iter(r))
+        cfg = {'strict': strict, 'soft': True, 'delim': cps('.')}
+        add({'op': 'http.get', 'cfg': cfg, 'fields': mf, 'qs': cps(qs)},
+            {'ok': val_to_node(r['ok'])} if kind == 'ok' else r)
+        ctx.cov['traces_validated_against_impl'] += 1
+        ctx.hit('c05flat:%s:%s:%s' % (what or 'conformant', 'conf' if expected else 'nonconf', kind))
+        if kind == 'crash':
+            ctx.hit('c05flat:crash-seen')           # C10's concern
+            continue
+        accepted = kind in ('ok', 'leak')
+        rep = {'kind': 'flat.c05', 'op': 'c05flat', 'sig': c.sig, 'reg': c.U.registry(), 'strict': strict, 'qs': qs,
+               'args': args, 'expected_conforms': expected, 'observed': r}
+        if accepted != expected:
+            ctx.finding('c05:%s:%s:httprpc' % ('accepted-nonconformant' if accepted else 'rejected-conformant', what or 'conformant'),
+                        'HttpRpc soft validation verdict differs from the declared constraints (%s): query %r -> %s' % (
+                            what or 'conformant value', qs[:200], core.canon(r)[:200]), rep)
+        elif accepted and r != {'ok': args}:
+            ctx.finding('c05:accepted-with-other-values:httprpc', 'accepted, but the user function got other values: '
+                        'query %r -> %s' % (qs[:200], core.canon(r)[:300]), rep)
+
+
+def part_c05(ctx):
+    """C05 over HttpRpc: the soft verdict of the real WSGI pipeline == the declared constraints (`conforms`, python
+    re-statement shared with the other blocks) for conformant values and single-facet violations at every nesting
+    position, boundary integers, occurrence counts 0..max+2; T2 on the model's soft decoder."""
+    from . import hierblock as H
+    rng = ctx.rng
+    f = getattr(ctx, 'facts03', None) or t1(ctx)
+    for k, good in GOOD_C05.items():
+        if f[k] != good:
+            w = fact_witness(k)
+            r0, _, _ = Impl(w['fields'], w['cfg']).get(w['qs'])
+            if 'fault' not in r0:
+                ctx.finding('switch:%s=%s' % (k, f[k]), 'HttpRpc soft validation lets %r through although member o.x is mandatory '
+                            '(an object made by key=empty, or made up by strict_arrays, is never validated): %s' % (
+                                w['qs'], core.canon(r0)[:200]), dict(w, kind='flat.verdict', fact=k, measured=f[k]))
+    Q = []
+
+    def add(q, impl):
+        Q.append((q, impl))
+        ctx.case(q)
+        ctx.hit('op:c05flat.' + q['op'])
+    import gc
+    for ci in range(400 if ctx.thorough else 40):
+        if ci % 10 == 0:
+            gc.freeze()
+        c = H.Case(rng, nclasses=rng.choice([2, 3]), depth=3, inherit=False)
+        if not all(flat_ok(t) for _, t in c.sig['args']):
+            ctx.hit('c05flat:skipped-signature')
+            continue
+        fc = FlatCase(c)
+        for vi in range(3):
+            args = c.gen_args(none_p=rng.choice([0.0, 0.2]))
+            if args is None:
+                continue
+            c05_flat_verdicts(ctx, fc, args, None, add)
+            for _ in range(4):
+                r = H.violate(rng, c.in_ty, args, field=False)
+                if r is None:
+                    continue
+                c05_flat_verdicts(ctx, fc, r[0], r[1], add)
+    # exhaustive small domains: 8-bit integers, occurrence counts 0 .. max+2 (also inside an object array)
+    for kind in ('i8', 'u8'):
+        lo, hi = H.KIND_RANGE[kind]
+        fc = FlatCase(H.FixedCase([['n', {'k': 'int', 'kind': kind, 'r': {}, 'occ': H.occ(False, 1, 1)}]]))
+        for i in range(lo - 3, hi + 4):
+            c05_flat_verdicts(ctx, fc, {'o': ['f', [['n', {'i': str(i)}]]]}, None if lo <= i <= hi else 'int-range', add)
+    for mn, mx in ((0, 2), (1, 3), (2, 2), (0, None), (2, None)):
+        fc = FlatCase(H.FixedCase([['m', {'k': 'int', 'kind': 'i32', 'r': {}, 'occ': H.occ(True, mn, mx)}]]))
+        top = (mx if mx is not None else mn + 1) + 2
+        for n in range(1, top + 1):
+            c05_flat_verdicts(ctx, fc, {'o': ['f', [['m', {'l': [{'i': str(j)} for j in range(n)]}]]]}, 'occurs', add)
+        c05_flat_verdicts(ctx, fc, {'o': ['f', [['m', None]]]}, 'occurs', add)
+    if Q:
+        # the C03 driver is not among C05's own targets: make sure it is built against the facts of THIS run
+        rc, out = core.sh(['lake', 'build', 'Driver.C03'], cwd=core.LEAN, timeout=3000)
+        if rc != 0:
+            raise core.Infra('lake build Driver.C03 failed:\n' + out[-2000:])
+    answers = model_parallel(ctx, [q for q, _ in Q]) if Q else []
+    for (q, impl), mod in zip(Q, answers):
+        if isinstance(mod, dict) and 'driver_error' in mod:
+            raise core.Infra('driver error: %r on %r' % (mod, q))
+        if outcome_class(impl) != outcome_class(mod) and 'leak' not in impl:
+            ctx.disagree('c05flat.' + q['op'], show_q(q), outcome_class(impl), outcome_class(mod))
+    ctx.cov['c05_flat_rule'] = ('shared-vocabulary signatures (hierblock universe: facets, occurrence bounds, nested classes, wrapped '
+                                'arrays) served over HttpRpc with validator=soft, strict_arrays on/off; documented query of conformant '
+                                'values and of single-facet violations; oracle = python `conforms`; T2 = model `http.get`')
+
+
 def replay(ctx, obj):
     """re-execute a single recorded case on the implementation and on the model"""
     print('replay of', obj.get('finding_id'), ':', (obj.get('what') or '')[:400])
     op = obj.get('op')
+    if op == 'c05flat':
+        from . import hierblock as H
+        c = H.FixedCase.__new__(H.FixedCase)
+        c.__init__(obj['sig']['args']) if not obj.get('reg') else None
+        if obj.get('reg'):
+            c = _case_from(obj)
+        fc = FlatCase(c)
+        r = fc.get(obj['strict'], obj['qs'])
+        print('query   :', obj['qs'], '(strict_arrays=%s, validator=soft)' % obj['strict'])
+        print('conforms:', obj['expected_conforms'])
+        print('impl    :', core.canon(r)[:600])
+        kind = next(iter(r))
+        if kind == 'crash':
+            return 0
+        accepted = kind in ('ok', 'leak')
+        if accepted != obj['expected_conforms']:
+            return 1
+        return 1 if accepted and 'args' in obj and r != {'ok': obj['args']} else 0
 
     def model(q):
         try:
-            return core.canon(ctx.model([q])[0])
+            return core.canon(ctx.model([q], driver='C03')[0])
         except Exception as e:
             return '(not available: %s)' % e
     if op == 'documented':
@@ -1184,6 +1526,13 @@ def replay(ctx, obj):
         print('impl    :', core.canon(r), st.get('status'), body[:200])
         print('model   :', model({'op': 'http.get', 'cfg': obj['cfg'], 'fields': model_fields(obj['fields']), 'qs': cps(obj['qs'])}))
         return 0 if r == {'ok': obj['expected']} else 1
+    if op == 'verdict':
+        impl = Impl(obj['fields'], obj['cfg'])
+        r, st, body = impl.get(obj['qs'])
+        print('query   :', obj['qs'], ' expected verdict:', obj['expected'])
+        print('impl    :', core.canon(r), st.get('status'), body[:200])
+        print('model   :', model({'op': 'http.get', 'cfg': obj['cfg'], 'fields': model_fields(obj['fields']), 'qs': cps(obj['qs'])}))
+        return 0 if obj['expected'] in r else 1
     if op == 'roundtrip':
         impl = Impl(obj['fields'], obj['cfg'])
         enc, raw = impl.encode_val(obj['val'])
@@ -1232,7 +1581,7 @@ def replay(ctx, obj):
         print('value   :', native_leaf(v).isoformat())
         print('impl    :', got)
         print('expected:', http_date(v))
-        print('model   :', uncps(ctx.model([{'op': 'hdr.date', 'v': obj['v']}])[0]))
+        print('model   :', uncps(ctx.model([{'op': 'hdr.date', 'v': obj['v']}], driver='C03')[0]))
         return 0 if got == http_date(v) else 1
     if op == 'return':
         impl = Impl([fld('a', P('int'))], None, obj['kind'], obj['hdrFields'])
@@ -1251,7 +1600,7 @@ def replay(ctx, obj):
         r, st, body = impl.get('a=1')
         print('impl    :', st.get('status'), st.get('headers'), body[:200])
         print('model   :', model({'op': 'http.return', 'mime': cps('text/plain'), 'hdrFields': model_fields(obj['hdrFields']),
-                                  'hdr': obj['hdr'], 'ret': ret}))
+                                  'hdr': obj['hdr'], 'ret': ret, 'retTy': P(obj['kind'])}))
         return 0
     print(core.canon(obj)[:3000])
     return 0
